@@ -206,11 +206,12 @@ def tb_strategy(tier):
         if exact:
             rate = netlab.exact_rate(3, 14)
             bucket = st.sampled_from([1, 64, 100, 512, 1000, 1500, 3000, 4096])
-            peakf = st.sampled_from([None, None, 2, 4, 16])
+            # the peak rate is any positive rate: above, equal to and below the token rate (it still spaces a burst out)
+            peakf = st.sampled_from([None, None, 2, 4, 16, 1, 0.5, 0.25])
         else:
             rate = st.sampled_from([8000.0, 9600, 1e5, 12345.678, 64000])
             bucket = st.sampled_from([100, 500, 1500, 2000, 3333])
-            peakf = st.sampled_from([None, 1.5, 2, 10])
+            peakf = st.sampled_from([None, 1.5, 2, 10, 1, 0.5])
         sizes = kgen.weighted([(st.sampled_from([1, 64, 100, 512, 1000, 1500, 3000]), 3), (st.integers(1, 3000), 1)])
         wl = netlab.workload([0, 1], n_max=50 if big else 25, exact=exact, sizes=sizes, min_size=3, late=True)
         return st.tuples(rate, bucket, peakf, wl).map(lambda t: {"exact": exact, "rate": t[0], "bucket": t[1],
